@@ -91,7 +91,7 @@ theorem restLoop_R : ∀ (fuel : Nat) (e : Enc) (arg : Nat) (e' : Enc) (a : Nat)
     · simp only [hc, if_true] at h
       obtain ⟨I1, r1, nb1, run1, _, nt1⟩ := disamb_R r0 p
       have r2 : R0 ((disambP e).out ++ [0x7f]) (disambP e).breaks (I1 ++ [[0x7f]]) :=
-        r1.push (.rest 0x7f (by omega)) (by simp) (fun hb => absurd hb nb1) (by rw [disambP_breaks])
+        r1.push (.rest 0x7f (by omega)) (by simp) (fun hb => absurd hb nb1) (by rw [disambP_breaks]) (bytes1 (by decide))
       have p2 : Pend { disambP e with out := (disambP e).out ++ [0x7f], lastRest := 0x7f } (I1 ++ [[0x7f]]) :=
         pend_false (by simp [needLenB, lastGt80_concat]) (by rw [lastBare_snoc]; exact not_bare_low (by omega))
       obtain ⟨I3, r3, p3, run3, nt3⟩ := ih _ _ _ _ _ h r2 p2
@@ -113,7 +113,7 @@ theorem encRest_R {e e' : Enc} {n : Nat} {I : List Ins} (hn : n ≤ 65535) (h : 
   by_cases hc : a = e1.lastRest
   · simp only [hc, if_true, Except.ok.injEq] at h
     subst h
-    refine ⟨I1 ++ [[mds_REST]], r1.push (.rest _ (by decide)) (by simp) (fun _ => by simp [HeadOk, mds_REST]) rfl, ?_, ?_, ?_⟩
+    refine ⟨I1 ++ [[mds_REST]], r1.push (.rest _ (by decide)) (by simp) (fun _ => by simp [HeadOk, mds_REST]) rfl (bytes1 (by decide)), ?_, ?_, ?_⟩
     · rw [lastBare_snoc]; exact not_bare_low (by decide)
     · intro s; rw [runI_snoc, stepI_neutral (by simp [neutralOp, mds_REST]), run1]
     · intro hnt; refine (nt1 hnt).snoc ?_
@@ -124,7 +124,7 @@ theorem encRest_R {e e' : Enc} {n : Nat} {I : List Ins} (hn : n ≤ 65535) (h : 
     have hm : a % 256 = a := by omega
     obtain ⟨I2, r2, nb2, run2, _, nt2⟩ := disamb_R r1 p1
     refine ⟨I2 ++ [[a % 256]], ?_, ?_, ?_, ?_⟩
-    · exact r2.push (.rest _ (by omega)) (by simp) (fun hb => absurd hb nb2) (by rw [disambP_breaks])
+    · exact r2.push (.rest _ (by omega)) (by simp) (fun hb => absurd hb nb2) (by rw [disambP_breaks]) (bytes1 (by omega))
     · rw [lastBare_snoc]; exact not_bare_low (by omega)
     · intro s; rw [runI_snoc, stepI_neutral (by simp [neutralOp]; omega), run2, run1]
     · intro hnt; refine (nt2 (nt1 hnt)).snoc ?_
@@ -155,7 +155,7 @@ theorem noteLoop_R : ∀ (fuel : Nat) (e : Enc) (arg : Nat) (e' : Enc) (a : Nat)
         obtain ⟨I0, t, rfl, h1, h2⟩ := lb
         have r1 := r0.extend h1 h2 (l := 0x7f) (by omega)
         have r2 : R0 (e.out ++ [0x7f] ++ [mds_TIE]) e.breaks (I0 ++ [[t, 0x7f]] ++ [[mds_TIE]]) :=
-          r1.push tie_bare (by simp) (fun _ => by simp [HeadOk, mds_TIE]) rfl
+          r1.push tie_bare (by simp) (fun _ => by simp [HeadOk, mds_TIE]) rfl (bytes1 (by decide))
         obtain ⟨I3, r3, lb3, ha, run3, nt3⟩ := ih { e with lastNote := 0x7f, out := e.out ++ [0x7f] ++ [mds_TIE] } _ _ _ _ h
           (by omega) r2 ((lastBare_snoc _ _).mpr ⟨mds_TIE, rfl, by decide, by decide⟩)
         refine ⟨I3, r3, lb3, ha, fun s => ?_, fun hnt => nt3 ?_⟩
@@ -164,7 +164,7 @@ theorem noteLoop_R : ∀ (fuel : Nat) (e : Enc) (arg : Nat) (e' : Enc) (a : Nat)
           intro b r hb; injection hb with hb _; subst hb; exact noTerm_low h2
       · rw [if_neg hl] at h
         have r2 : R0 (e.out ++ [mds_TIE]) e.breaks (I ++ [[mds_TIE]]) :=
-          r0.push tie_bare (by simp) (fun _ => by simp [HeadOk, mds_TIE]) rfl
+          r0.push tie_bare (by simp) (fun _ => by simp [HeadOk, mds_TIE]) rfl (bytes1 (by decide))
         obtain ⟨I3, r3, lb3, ha, run3, nt3⟩ := ih { e with lastNote := 0x7f, out := e.out ++ [mds_TIE] } _ _ _ _ h
           (by omega) r2 ((lastBare_snoc _ _).mpr ⟨mds_TIE, rfl, by decide, by decide⟩)
         refine ⟨I3, r3, lb3, ha, fun s => ?_, fun hnt => nt3 (hnt.snoc htie)⟩
@@ -184,7 +184,7 @@ theorem encNote_R {e : Enc} {ty n : Nat} {I : List Ins} (h1 : mds_TIE ≤ ty) (h
   have g2 : ty < 0xe0 := h2
   obtain ⟨e1, a, hnl, henc⟩ := encNote_eq e ty n
   have r1 : R0 (e.out ++ [ty]) e.breaks (I ++ [[ty]]) :=
-    r0.push (.bare ty g1 g2) (by simp) (fun _ => by simp only [HeadOk]; omega) rfl
+    r0.push (.bare ty g1 g2) (by simp) (fun _ => by simp only [HeadOk]; omega) rfl (bytes1 (by omega))
   obtain ⟨I2, r2, lb2, ha, run2, nt2⟩ := noteLoop_R 512 { e with out := e.out ++ [ty] } (n - 1) e1 a (I ++ [[ty]]) hnl
     (by omega) r1 ((lastBare_snoc _ _).mpr ⟨ty, rfl, g1, g2⟩)
   have hrun : ∀ s, runI I2 s = stepI [ty] (runI I s) := fun s => by rw [run2, runI_snoc]
@@ -217,11 +217,13 @@ theorem encNote_R {e : Enc} {ty n : Nat} {I : List Ins} (h1 : mds_TIE ≤ ty) (h
 theorem not_bare_cmd {b : Nat} {r : List Nat} (h : b ≥ 0xe0) : ¬ Bare (b :: r) := by
   rintro ⟨t, ht, _, h2⟩; injection ht with ht _; omega
 
-theorem brkCmd_ok (off : Nat) : ∃ cb cr, brkCmd off = cb :: cr ∧ cb ≥ 0xe0 ∧ InsOk (brkCmd off) ∧ neutralOp cb ∧ isTermOp cb = false := by
+theorem brkCmd_ok (off : Nat) (hoff : off < 65536) : ∃ cb cr, brkCmd off = cb :: cr ∧ cb ≥ 0xe0 ∧ InsOk (brkCmd off) ∧ neutralOp cb ∧
+    isTermOp cb = false ∧ ∀ x ∈ brkCmd off, x < 256 := by
   unfold brkCmd; split
-  · exact ⟨mds_LPB, [off], rfl, by decide, .cmd _ _ (by decide) (by show cmdLen _ = some 2; decide), by simp [neutralOp], by decide⟩
+  · exact ⟨mds_LPB, [off], rfl, by decide, .cmd _ _ (by decide) (by show cmdLen _ = some 2; decide), by simp [neutralOp], by decide,
+      bytes2 (by decide) (by omega)⟩
   · exact ⟨mds_LPBL, [off / 256, off % 256], rfl, by decide, .cmd _ _ (by decide) (by show cmdLen _ = some 3; decide),
-      by simp [neutralOp], by decide⟩
+      by simp [neutralOp], by decide, bytes3 (by decide) (by omega) (by omega)⟩
 
 /-- **one iteration of `convert_track` on the instruction list** -/
 theorem shape_R {nS nM : Nat} {e e' : Enc} {ev : MEv} {I : List Ins} (sh : Shape nS nM e ev e') (hlen : e'.out.length < 65536)
@@ -261,9 +263,9 @@ theorem shape_R {nS nM : Nat} {e e' : Enc} {ev : MEv} {I : List Ins} (sh : Shape
     refine ⟨I1, r1, pend_false (by simp [afterSegno, needLenB, noteish, mds_SEGNO, mds_TIE]) nb1, fun s => ?_, ?_, fun _ => nt1⟩
     · rw [run1, hins]; rfl
     · show e.breaks.length = _; rw [hty]; simp [dstep, mds_SEGNO, mds_LP, mds_LPF]
-  | cmd b r hge hok ho ht hbr hd hst hbe =>
+  | cmd b r hge hok ho ht hbr hd hst hbe hby =>
     refine ⟨I ++ [b :: r], ?_, pend_false (needLenB_cmd ht) (by rw [lastBare_snoc]; exact not_bare_cmd hge), fun s => ?_, hd, fun hnt h => ?_⟩
-    · rw [ho]; exact r0.push hok (by simp) (fun _ => by simp only [HeadOk]; omega) hbr
+    · rw [ho]; exact r0.push hok (by simp) (fun _ => by simp only [HeadOk]; omega) hbr hby
     · rw [runI_snoc, hst]
     · refine h.snoc ?_
       intro b' r' hb; injection hb with hb _; subst hb; rw [hbe]; exact hnt
@@ -289,11 +291,15 @@ theorem shape_R {nS nM : Nat} {e e' : Enc} {ev : MEv} {I : List Ins} (sh : Shape
     have hbr : e.breaks = A.flatten.length :: r := by rw [hb, hAl]
     have h2 := encEv_lpf_break nS nM e arg A.flatten B.flatten r hout hbr (by rw [hAl]; exact hb0) (by omega)
     rw [h2] at henc; injection henc with henc; subst henc
-    obtain ⟨cb, cr, hc, hcge, hcok, hcn, hct⟩ := brkCmd_ok (B.flatten.length + 2)
+    have hoffb : B.flatten.length + 2 < 65536 := by
+      have := hlen
+      simp only [patched, List.length_append, List.length_cons, List.length_nil] at this
+      omega
+    obtain ⟨cb, cr, hc, hcge, hcok, hcn, hct, hcby⟩ := brkCmd_ok (B.flatten.length + 2) hoffb
     have hins : evIns nS nM ⟨mds_LPF, arg⟩ = [mds_LPF] := by
       simp [evIns, mds_LPF, mds_JUMP, mds_PEG, mds_PCM, mds_INS, mds_MTAB, mds_SLR, byteArgOps, mds_PAT, mds_VOL, mds_VOLM, mds_TRS,
         mds_TRSM, mds_DTN, mds_PTA, mds_PAN, mds_LFO, mds_FLG, mds_DMFINISH, mds_COMM, mds_TEMPO, mds_PCMRATE, mds_PCMMODE]
-    refine ⟨A ++ brkCmd (B.flatten.length + 2) :: B ++ [[mds_LPF, arg % 256]], hpatch _ cb cr hc hcge hcok (arg % 256),
+    refine ⟨A ++ brkCmd (B.flatten.length + 2) :: B ++ [[mds_LPF, arg % 256]], hpatch _ cb cr hc hcge hcok hcby (arg % 256) (Nat.mod_lt _ (by decide)),
       pend_false (needLenB_cmd (show (patched e A.flatten B.flatten arg r).lastType ≥ 0xe0 by show mds_LPF ≥ 224; decide))
         (by rw [lastBare_snoc]; exact not_bare_cmd (by decide)), fun s => ?_, ?_, fun _ hnt => ?_⟩
     · rw [hins, hI, runI_snoc, stepI_neutral (by simp [neutralOp]), stepI_neutral (by simp [neutralOp]), runI_append, runI_append,
@@ -330,6 +336,17 @@ theorem encAll_R (nS nM : Nat) : ∀ (es : List MEv) (e e' : Enc) (I : List Ins)
       refine ⟨I2, r2, p2, fun s => ?_, ?_, fun hnt hI => nt2 (fun x hx => hnt x (by simp [hx])) (nt1 (hnt ev (by simp)) hI)⟩
       · rw [run2, run1]; rfl
       · rw [d2, d1]; rfl
+
+/-- **the converted track consists of bytes** (fragment `okEv`, stream shorter than 64 KiB) -/
+theorem convertTrack_bytes (nS nM : Nat) (es : List MEv) (hok : ∀ ev ∈ es, okEv ev = true) {bytes : List Nat}
+    (h : convertTrack nS nM es = .ok bytes) (hlen : bytes.length < 65536) : ∀ x ∈ bytes, x < 256 := by
+  unfold convertTrack at h
+  cases h0 : encAll nS nM {} es with
+  | error x => simp [h0, Except.map] at h
+  | ok e' =>
+    simp only [h0, Except.map, Except.ok.injEq] at h
+    obtain ⟨I, r, _⟩ := encAll_R nS nM es {} e' [] hok h0 (by rw [h]; exact hlen) r0_init pend_init
+    rw [← h]; exact r.bytes
 
 /-- what the reader-side decoder collects from the stream of an event list: its own reading
 (`stepI`) of one instruction `evIns` per event -/
@@ -425,9 +442,9 @@ theorem decode_convertTrack (nS nM : Nat) (body : List MEv) (t : MEv)
         | segno hty => rw [hty] at ht; exact absurd ht.2 (by decide)
         | lpb _ hty => rw [hty] at ht; exact absurd ht.2 (by decide)
         | lpf _ _ hty => rw [hty] at ht; exact absurd ht.2 (by decide)
-        | cmd b r hge hok ho hlt hbr hd hst hbe =>
+        | cmd b r hge hok ho hlt hbr hd hst hbe hby =>
           have r2 : R0 e2.out e2.breaks (I1 ++ [b :: r]) := by
-            rw [ho]; exact r1.push hok (by simp) (fun _ => by simp only [HeadOk]; omega) hbr
+            rw [ho]; exact r1.push hok (by simp) (fun _ => by simp only [HeadOk]; omega) hbr hby
           -- no holes left
           have hdepth : e2.breaks.length = 0 := by
             rw [hd, d1]
